@@ -82,6 +82,10 @@ def gen(rng, tier):
         closer_ops.append(["send", T, None, L.gen_fill(rng, False)])  # token filled below
         if rng.random() < 0.2:
             closer_ops.append(["yield", rng.randrange(1, 4)])
+    open_probe = rng.random() < 0.25
+    if open_probe:
+        # the channel stays open until a peer task has seen waitclose(timeout) time out on it
+        closer_ops.append(["latch_wait", "open-probed", 900])
     if kind == "explicit":
         closer_ops.append(["close", T])
         probes = [["send", T, "probe", ["none"]], ["isclosed", T], ["waitclose", T, 5.0], ["close", T]]
@@ -125,6 +129,11 @@ def gen(rng, tier):
         aid = new_actor(peer)
         observers.append(aid)
         actors[aid]["ops"] = [["waitclose", T, None]] + probes_for(False)
+    extras = []
+    if open_probe:
+        aid = new_actor(peer)
+        extras.append(aid)
+        actors[aid]["ops"] = [["waitclose_open", T, rng.choice([0.01, 0.3, 2.0])], ["latch_set", "open-probed"]]
     # ---- assemble
     if closer == "w":
         if kind == "endbody":
@@ -134,22 +143,26 @@ def gen(rng, tier):
                 if op[0] == "send":
                     op[2] = None
             W["ops"] += closer_ops
+            if rng.random() < 0.3:
+                # the body ends because an EOFError leaves it (the usual end of a worker receive loop): by design
+                # that is an ordinary end of the remote_exec, so the channel is closed all the same
+                W["ops"].append(["propagate", ["raise_named", "EOFError"]])
         else:
             closer_aid = 1
             W["ops"] += closer_ops
             W["ops"] += [["latch_wait", "fin", 900]]
-        for aid in observers:
+        for aid in observers + extras:
             main.append(["spawn", aid])
-        for aid in observers:
+        for aid in observers + extras:
             main.append(["join", aid, 600])
         main.append(["latch_set", "fin"])
     else:
         closer_aid = new_actor("i")
         actors[closer_aid]["ops"] = closer_ops
-        for aid in observers:
+        for aid in observers + extras:
             W["ops"].append(["spawn", aid])
         W["ops"].append(["latch_set", "obs-started"])
-        for aid in observers:
+        for aid in observers + extras:
             W["ops"].append(["join", aid, 600])
         if subject == "s":
             W["ops"].append(["latch_wait", "fin", 900])
@@ -167,7 +180,7 @@ def gen(rng, tier):
     return {"gateways": specs, "actors": actors, "knobs": knobs, "strategy": L.gen_strategy(rng),
             "preempt": L.gen_preempt(rng, 3000), "preempt_at": L.gen_preempt_at(rng, ["_local_close", "close", "receive", "_no_longer_opened", "__del__", "send", "waitclose", "executetask"]), "faults": [], "transport": transport, "backend": backend,
             "gwi": gwi, "subject": T, "closer": closer, "kind": kind, "peer": peer, "nitems": k,
-            "closer_aid": closer_aid, "observers": observers, "dir": d}
+            "closer_aid": closer_aid, "observers": observers, "dir": d, "extras": extras}
 
 
 def shrink_cases(case):
@@ -208,8 +221,13 @@ def oracle(case, res, hist):
     T = case["subject"]
     kind = case["kind"]
     key0 = f"{kind};{T if T == 's' else 'exec'};closer={case['closer']}"
-    allow = {("recv", "EOFError"), ("send", "OSError")}
+    allow = {("recv", "EOFError"), ("send", "OSError"), ("propagate", "EOFError"), ("waitclose_open", "TimeoutError")}
     V = L.generic_rules(res, hist, allow_exc=allow, key=key0)
+    for aid in case.get("extras", ()):
+        r = hist.ret.get((aid, 0))
+        if r is not None and not (r[1][0] == "exc" and r[1][1] == "TimeoutError"):
+            V.append(v("waitclose-returned-on-open-channel", key0,
+                       f"waitclose(timeout) on a channel that nobody had closed yet -> {r[1]}"))
     closer_aid = case["closer_aid"]
     # --- what was sent before the close, and when was the close invoked
     sent = []
